@@ -6,9 +6,11 @@ case (PlacementSpec) =
                 "extra": [[obj, acc], ...],                                      only inst/inline: further OUTPUT ports of the same
                                                                                  instance (a root may be driven by >= 2 of them)
                 "n": 2|3, "how": "loop"|"factory",                               only dup_*: copies of one definition
-                "acts": [[obj, "r"|"w"|"rw", acc], ...],                         at most one entry per object
+                "acts": [[obj, "r"|"w"|"rw"|"wi0"|"wi1"|"wi2", acc], ...],      wiN: write through an inline VHDL statement,
+                                                                                 stored in a local and re-expanded N times                         at most one entry per object
                 "body": [[obj, rw, acc], ...]}, ...]}                            only "always": process body of the same context
     acc = ["whole"] | ["slice", hi, lo] | ["elem", i] | ["dyn"]
+    "depth": 1|2|3   the placement lives in the top entity (1) or in a sub-entity `Core` instantiated by 1-2 wrappers
 
 Sites are rendered in order (cohdl traces contexts in definition order):
     seq     @std.sequential(std.Clock(clk)) context
@@ -132,6 +134,8 @@ def plan(tier):
     shards = [{"kind": "enum", "name": f"p2x2_{k}", "stride": stride, "lo": lo, "hi": min(n, lo + step)}
               for k, lo in builtins.enumerate(range(0, n, step))]
     shards.append({"kind": "enum", "name": "inst2out", "space": "inst2out"})
+    shards.append({"kind": "enum", "name": "deep", "space": "deep"})
+    shards.append({"kind": "enum", "name": "inlvhdl", "space": "inlvhdl"})
     for i in range(nh):
         shards.append({"kind": "hyp", "name": f"place{i}", "examples": per})
     return shards
@@ -140,6 +144,36 @@ def plan(tier):
 _ACC_PAIRS = [(["whole"], ["whole"]), (["whole"], ["slice", 1, 0]), (["slice", 3, 2], ["whole"]), (["slice", 2, 1], ["slice", 3, 2]),
               (["slice", 1, 0], ["slice", 3, 2]), (["slice", 3, 0], ["elem", 2]), (["elem", 1], ["elem", 1]), (["elem", 0], ["elem", 3]),
               (["slice", 1, 0], ["elem", 2]), (["slice", 2, 0], ["slice", 2, 2]), (["dyn"], ["elem", 0]), (["whole"], ["dyn"])]
+
+
+def _deep_cases():
+    """the placement inside a sub-entity (depth 2, 3): a context of the sub-entity and an inline instance created in
+    another concurrent context of it drive / read the same object (conflict and control cases, both orders)"""
+    for depth in (2, 3):
+        for wk in ("conc", "seq", "always"):
+            for ok in ("sig", "out"):
+                for accs in ((["whole"], ["whole"]), (["slice", 1, 0], ["slice", 3, 2])):
+                    for rw in ("w", "r"):
+                        a = {"k": wk, "acts": [[0, rw, accs[0]]]}
+                        b = {"k": "inline", "acts": [[0, "w", accs[1]]]}
+                        for sites in ([a, b], [b, a]):
+                            yield {"objs": [{"k": ok}], "sites": sites, "depth": depth}
+
+
+def _inlvhdl_cases():
+    """one driver is an inline VHDL statement (flat, nested once, nested twice) in a context; the other site writes or
+    reads the same object; targets: signal, out port, in port"""
+    for lvl in (0, 1, 2):
+        for wk in ("conc", "seq", "always"):
+            for ok in ("sig", "out", "in"):
+                for acc in (["whole"], ["slice", 1, 0]):
+                    for other in (("conc", "w"), ("seq", "w"), ("conc", "r")):
+                        acc2 = ["whole"] if acc[0] == "whole" else ["slice", 3, 2]
+                        a = {"k": wk, "acts": [[0, f"wi{lvl}", acc]]}
+                        b = {"k": other[0], "acts": [[0, other[1], acc2]]}
+                        yield {"objs": [{"k": ok}], "sites": [a, b]}
+                        if other[1] == "w":
+                            yield {"objs": [{"k": ok}], "sites": [b, a]}
 
 
 def _inst2out_cases():
@@ -162,6 +196,12 @@ EXHAUSTIVE = {"quick": False, "thorough": False}
 def enumerate(shard):  # noqa: A001
     if shard.get("space") == "inst2out":
         yield from _inst2out_cases()
+        return
+    if shard.get("space") == "deep":
+        yield from _deep_cases()
+        return
+    if shard.get("space") == "inlvhdl":
+        yield from _inlvhdl_cases()
         return
     stride = int(shard.get("stride", 1))
     lo, hi = shard["lo"], shard["hi"]
@@ -194,9 +234,11 @@ def _cases(draw):
                                   "dup_seq", "dup_seq", "dup_conc"]))
         acts = []
         for oi in range(no):
-            rw = draw(st.sampled_from([None, "r", "r", "w", "w", "rw"]))
+            rw = draw(st.sampled_from([None, "r", "r", "w", "w", "rw", "wi0", "wi1", "wi2"]))
             if rw is None:
                 continue
+            if rw.startswith("wi") and (k in ("inst", "inline") or objs[oi]["k"] == "tmp"):
+                rw = "w"
             acc = ["whole"] if objs[oi]["k"] == "tmp" else draw(_ACC)
             acts.append([oi, rw, acc])
         s = {"k": k, "acts": acts}
@@ -215,7 +257,11 @@ def _cases(draw):
                     body.append([oi, rw, ["whole"] if objs[oi]["k"] == "tmp" else draw(_ACC)])
             s["body"] = body
         sites.append(s)
-    return {"objs": objs, "sites": sites}
+    case = {"objs": objs, "sites": sites}
+    depth = draw(st.sampled_from([1, 1, 1, 2, 2, 3]))
+    if depth > 1:
+        case["depth"] = depth
+    return case
 
 
 def strategy(shard):
@@ -304,7 +350,8 @@ def render(case):
         else:
             w("        pass")
         w("")
-    w("class Top(Entity):")
+    depth = int(case.get("depth", 1))
+    w(f"class {'Top' if depth == 1 else 'Core'}(Entity):")
     w("    clk = Port.input(Bit)")
     w("    d4 = Port.input(BitVector[4])")
     w("    e4 = Port.input(BitVector[4])")
@@ -356,7 +403,16 @@ def render(case):
                     out.append(f"nxt(rd_{si}{part}{oi}).next = {tgt}")
                 else:
                     out.append(f"rd_{si}{part}{oi}.next = {tgt}")
-            if "w" in rw:
+            if rw.startswith("wi"):
+                # inline VHDL statement: {obj} is a write access, {obj!r} a read access; nested = kept in a local
+                # and expanded inside another inline block
+                op = ":=" if k == "var" else "<="
+                text = "f\"{cohdl.vhdl:{" + tgt + "} " + op + " {" + _src(acc) + "!r};}\""
+                for lvl in range(int(rw[2])):
+                    out.append(f"st_{si}{part}{oi}_{lvl} = {text}")
+                    text = "f\"{cohdl.vhdl:{" + f"st_{si}{part}{oi}_{lvl}" + "}}\""
+                out.append(text)
+            elif "w" in rw:
                 if k == "var":
                     out.append(f"{tgt}.value = {_src(acc)}" if acc[0] == "whole" else f"{tgt} @= {_src(acc)}")
                 else:
@@ -425,6 +481,26 @@ def render(case):
             raise AssertionError(k)
         w("")
     w("        pass")
+    # wrappers: the placement is the architecture of a sub-entity (hierarchy depth 2 or 3)
+    pnames = ["clk", "d4", "e4", "d1", "sel"] + [f"p{o['k']}{oi}" for oi, o in builtins.enumerate(objs) if o["k"] in ("in", "out")]
+    inner = "Core"
+    for lvl in range(depth - 1):
+        name = "Top" if lvl == depth - 2 else "Mid"
+        w("")
+        w(f"class {name}(Entity):")
+        w("    clk = Port.input(Bit)")
+        w("    d4 = Port.input(BitVector[4])")
+        w("    e4 = Port.input(BitVector[4])")
+        w("    d1 = Port.input(Bit)")
+        w("    sel = Port.input(Unsigned[2])")
+        for oi, o in builtins.enumerate(objs):
+            if o["k"] == "out":
+                w(f"    pout{oi} = Port.output(BitVector[4])")
+            elif o["k"] == "in":
+                w(f"    pin{oi} = Port.input(BitVector[4])")
+        w("    def architecture(self):")
+        w(f"        {inner}({', '.join(f'{p}=self.{p}' for p in pnames)})")
+        inner = name
     return "\n".join(L) + "\n"
 
 
@@ -531,6 +607,9 @@ def check(case):
     for o in case["objs"]:
         out.labels.append("obj:" + o["k"])
     out.labels.append("expect:" + ("must_reject" if exp["must_reject"] else "may_accept"))
+    out.labels.append("depth:%d" % int(case.get("depth", 1)))
+    if any(rw.startswith("wi") for s in case["sites"] for _, rw, _ in list(s["acts"]) + list(s.get("body", []))):
+        out.labels.append("inline_vhdl_write")
     for r in exp["reasons"]:
         out.labels.append("reason:" + r[0])
     if any(s.get("extra") for s in case["sites"]):
@@ -609,6 +688,16 @@ def check(case):
             if len(units) > 1:
                 out.add({"kind": "text", "rule": "root-multi-unit", "units": "+".join(sorted(u[0] for u in units)), "spec": spec_drv},
                         f"signal {obj.raw} of {ei.raw} is driven by {len(units)} units: {sorted(map(str, units))}\n" + _excerpt(vhdl))
+    # structural expectation: an instance belongs to the architecture of the entity whose architecture/context made it
+    owner = d.entities.get("top" if int(case.get("depth", 1)) == 1 else "core")
+    if owner is not None and owner.arch is not None:
+        have = {getattr(i.entity, "name", None) for i in owner.arch.insts}
+        for si, s in builtins.enumerate(case["sites"]):
+            if s["k"] in ("inst", "inline") and (s["acts"] or s.get("extra")) and f"sub{si}" not in have:
+                where = [e2.raw for e2 in d.entities.values() if e2.arch is not None
+                         and any(getattr(i.entity, "name", None) == f"sub{si}" for i in e2.arch.insts)]
+                out.add({"kind": "text", "rule": "instance-misplaced", "site": s["k"], "found_in": "other" if where else "nowhere"},
+                        f"Sub{si} is instantiated by {owner.raw} but appears in {where or 'no architecture'}\n" + _excerpt(vhdl))
     if out.findings and out.status == "ok":
         out.status = "conflict_in_text"
     return out
